@@ -226,9 +226,13 @@ VRule == /\ pc = "V.rule"
               [] rc = "fn" -> IF FZero THEN Jump("finish") ELSE Jump("V.callfn")
 VCallFn == /\ pc \in {"V.callfn", "Var.callfn", "Map.callfn"}
            /\ \E d \in {dirty, TRUE} : Step("finish", pos, gather, strict, d)    \* a rule function appends a clause or not
+(* static pointee of a pointer chain starting at p (RemoveTypePtr): only pointers to structs are descended into (fix 32d2500) *)
+RECURSIVE PointeeKind(_, _)
+PointeeKind(sh, p) == IF p \in DOMAIN sh /\ KindOf(sh[p]) = "Ptr" THEN PointeeKind(sh, p + 1)
+                      ELSE IF p \in DOMAIN sh THEN KindOf(sh[p]) ELSE "Invalid"
 VExist == /\ pc = "V.exist"
           /\ IF FZero THEN Jump("finish")
-             ELSE CASE KindOf(FTok) = "Ptr" -> Step("V.enter", pos + 1, FALSE, strict, dirty)
+             ELSE CASE KindOf(FTok) = "Ptr" /\ PointeeKind(shape, pos + 1) = "Struct" -> Step("V.enter", pos + 1, FALSE, strict, dirty)
                     [] KindOf(FTok) = "Struct" -> IF FTok = "time" THEN Jump("finish")
                                                   ELSE Step("V.enter", pos + 1, FALSE, strict, dirty)
                     [] KindOf(FTok) \in {"Slice", "Array", "Map"} ->
@@ -237,7 +241,7 @@ VExist == /\ pc = "V.exist"
 
 (* ---------------- Var ---------------- *)
 RECURSIVE VarSupported(_, _)
-VarSupported(sh, p) == CASE KindOf(sh[p]) = "String" -> TRUE
+VarSupported(sh, p) == CASE KindOf(sh[p]) \in {"String", "Bool"} -> TRUE      \* bool since fix 2c620dd
                          [] KindOf(sh[p]) \in {"Slice", "Array"} -> VarSupported(sh, p + 1)   \* ty = ty.Elem()
                          [] OTHER -> KindOf(sh[p]) \in NumKinds
 VarStrip == /\ pc = "Var.strip"
@@ -269,7 +273,8 @@ MapValidate == /\ pc = "Map.validate"
                   THEN IF Guarded("map.kind") THEN Step("finish", pos, gather, strict, TRUE)   \* val must map
                        ELSE Fault("Map: Key of non-map type")                             \* tv.Type().Key() first
                   ELSE IF Tok = "mapI" THEN Step("finish", pos, gather, strict, TRUE)     \* map key must string
-                  ELSE IF Tok = "nilmap" THEN Jump("finish")
+                  ELSE IF Tok = "nilmap"      \* no entry to walk; the scan for absent required keys (fix a4b66b2) reports the ruled key
+                       THEN IF rc = "required" THEN Step("finish", pos, gather, strict, TRUE) ELSE Jump("finish")
                   ELSE Jump("Map.rule")
 MapRule == /\ pc = "Map.rule"
            /\ CASE rc = "none" -> Jump("finish")
@@ -279,8 +284,10 @@ MapRule == /\ pc = "Map.rule"
 
 (* ---------------- Url ---------------- *)
 UrlSwitch == /\ pc = "Url.strip"
-             /\ CASE KindOf(Tok) = "String" -> Ret("nil")                  \* the generated strings carry no query part
-                  [] Tok = "ptr" /\ KindOf(shape[pos + 1]) = "String" -> Ret("nil")
+             \* the generated strings carry no query part, so nothing is walked; the scan for absent required keys
+             \* (fix a4b66b2) reports the ruled key under `required`
+             /\ CASE KindOf(Tok) = "String" -> Ret(IF rc = "required" THEN "error" ELSE "nil")
+                  [] Tok = "ptr" /\ KindOf(shape[pos + 1]) = "String" -> Ret(IF rc = "required" THEN "error" ELSE "nil")
                   [] Tok = "nilptr" /\ KindOf(shape[pos + 1]) = "String" ->
                        IF Guarded("url.nil") THEN Ret("error") ELSE Fault("Url: nil *string dereference")
                   [] OTHER -> Ret("error")                                 \* src must is string/*string
@@ -326,28 +333,22 @@ IsAtoi(s) == LET d == IF Len(s) > 0 /\ s[1] = "-" THEN Tail(s) ELSE s IN
 
 Scanners == {"Parse", "ToBounds", "InBrackets", "ReExtract", "DatetimeSeps"}
 
-(* ParseValidNameKV: the accesses it makes and its result *)
+(* ParseValidNameKV as repaired (fix 69e7d1e): the custom message is everything after the FIRST "|"; the key/value *)
+(* split on "=" is done on the text before it.  The accesses it makes and its result:                             *)
+ParseHead(t) == LET b == IndexOf(t, "|") IN IF b = -1 THEN t ELSE GoSlice(t, 0, b)
 ParseAcc(t) ==
-  LET i == IndexOf(t, "=") IN
-  IF i = -1
-  THEN LET j == IndexOf(t, "|") IN
-       IF j # -1 /\ Len(t) - 1 > j + 1 THEN {AccSlice(0, j, Len(t)), AccSlice(j + 1, Len(t), Len(t))} ELSE {}
-  ELSE LET v == GoSlice(t, i + 1, Len(t))
-           j == IndexOf(v, "|") IN
-       {AccSlice(0, i, Len(t)), AccSlice(i + 1, Len(t), Len(t))} \cup
-       (IF j # -1 /\ Len(v) - 1 > j + 1 THEN {AccSlice(j + 1, Len(v), Len(v)), AccSlice(0, j, Len(v))} ELSE {})
+  LET b == IndexOf(t, "|")
+      h == ParseHead(t)
+      i == IndexOf(h, "=") IN
+  (IF b # -1 THEN {AccSlice(b + 1, Len(t), Len(t)), AccSlice(0, b, Len(t))} ELSE {}) \cup
+  (IF i # -1 THEN {AccSlice(0, i, Len(h)), AccSlice(i + 1, Len(h), Len(h))} ELSE {})
 ParseRes(t) ==
-  LET i == IndexOf(t, "=") IN
-  IF i = -1
-  THEN LET j == IndexOf(t, "|") IN
-       IF j # -1 /\ Len(t) - 1 > j + 1
-       THEN [key |-> GoSlice(t, 0, j), value |-> <<>>, msg |-> GoSlice(t, j + 1, Len(t))]
-       ELSE [key |-> t, value |-> <<>>, msg |-> <<>>]
-  ELSE LET v == GoSlice(t, i + 1, Len(t))
-           j == IndexOf(v, "|") IN
-       IF j # -1 /\ Len(v) - 1 > j + 1
-       THEN [key |-> GoSlice(t, 0, i), value |-> GoSlice(v, 0, j), msg |-> GoSlice(v, j + 1, Len(v))]
-       ELSE [key |-> GoSlice(t, 0, i), value |-> v, msg |-> <<>>]
+  LET b == IndexOf(t, "|")
+      h == ParseHead(t)
+      m == IF b = -1 THEN <<>> ELSE GoSlice(t, b + 1, Len(t))
+      i == IndexOf(h, "=") IN
+  IF i = -1 THEN [key |-> h, value |-> <<>>, msg |-> m]
+  ELSE [key |-> GoSlice(h, 0, i), value |-> GoSlice(h, i + 1, Len(h)), msg |-> m]
 
 VARIABLES sc, text, spc, si, sparts, acc, sres, sout
 svars == <<sc, text, spc, si, sparts, acc, sres, sout>>
